@@ -40,6 +40,9 @@ type c10Case struct {
 	InitE []mon.ElemCase `json:"init_elements"`
 	InitS []string       `json:"init_scalars"`
 	Steps []c10Step      `json:"steps"`
+	// Parallel: several independent histories run simultaneously, one goroutine each, on variables of their own; each is
+	// judged step by step against its own model exactly as when run alone.
+	Parallel []*c10Case `json:"parallel,omitempty"`
 }
 
 func init() {
@@ -442,6 +445,29 @@ func c10Generate(c *mon.Ctx) {
 
 	c.Random(c.N(400, 20000), func(r *gen.Rng) any { return c10GenHistory(r, pool, c.N(60, 100)) })
 
+	// histories run simultaneously (8 and 24 at a time, more than cores for the latter)
+	pr := c.SharedRng("parallel")
+
+	for b := 0; b < c.N(12, 300); b++ {
+		batch := &c10Case{}
+		for g := 0; g < []int{8, 24}[b%2]; g++ {
+			h := c10GenHistory(pr, pool, 40)
+
+			// scripted Random swaps the process-wide entropy source: not in histories that run side by side
+			kept := h.Steps[:0]
+			for _, st := range h.Steps {
+				if st.Op != "s.random" {
+					kept = append(kept, st)
+				}
+			}
+
+			h.Steps = kept
+			batch.Parallel = append(batch.Parallel, h)
+		}
+
+		c.Structured(func() any { return batch })
+	}
+
 	if c.Thorough() {
 		c.Random(192, func(r *gen.Rng) any { return c10GenHistory(r, pool, 2000) })
 	} else {
@@ -451,6 +477,29 @@ func c10Generate(c *mon.Ctx) {
 
 // ---------------------------------------------------------------------------------------------------------------------
 // lock-step execution
+
+// c10Record lays message and tag of a hashing step out the way the step's index says: fresh exact slices, or two windows
+// of one record buffer (message first, its capacity running over the tag and beyond; or tag first). The call is made
+// twice and the second result is the one the model is compared with: a call that writes behind one of its arguments
+// changes what the next call reads.
+func c10Record(st *c10Step) (m, d []byte) {
+	msg, dst := mon.UnH(st.Lit), mon.UnH(st.Lit2)
+
+	switch (len(msg) + len(dst) + st.R) % 3 {
+	case 0:
+		return msg, dst
+	case 1:
+		rec := make([]byte, 0, len(msg)+len(dst)+24)
+		rec = append(append(rec, msg...), dst...)
+
+		return rec[:len(msg)], rec[len(msg) : len(msg)+len(dst)]
+	default:
+		rec := make([]byte, 0, len(msg)+len(dst)+24)
+		rec = append(append(rec, dst...), msg...)
+
+		return rec[len(dst) : len(dst)+len(msg)], rec[:len(dst)]
+	}
+}
 
 type c10Impl struct {
 	e [c10NE]*secp256k1.Element
@@ -523,9 +572,13 @@ func c10Exec(im *c10Impl, st *c10Step) {
 			panic("round trip (hex) rejected: " + err.Error())
 		}
 	case "e.h2g":
-		im.e[r] = secp256k1.HashToGroup(mon.UnH(st.Lit), mon.UnH(st.Lit2))
+		m, d := c10Record(st)
+		secp256k1.HashToGroup(m, d)
+		im.e[r] = secp256k1.HashToGroup(m, d)
 	case "e.e2g":
-		im.e[r] = secp256k1.EncodeToGroup(mon.UnH(st.Lit), mon.UnH(st.Lit2))
+		m, d := c10Record(st)
+		secp256k1.EncodeToGroup(m, d)
+		im.e[r] = secp256k1.EncodeToGroup(m, d)
 	case "s.new":
 		im.s[r] = secp256k1.NewScalar()
 	case "s.zero":
@@ -559,7 +612,9 @@ func c10Exec(im *c10Impl, st *c10Step) {
 			panic("scalar round trip rejected: " + err.Error())
 		}
 	case "s.h2s":
-		im.s[r] = secp256k1.HashToScalar(mon.UnH(st.Lit), mon.UnH(st.Lit2))
+		m, d := c10Record(st)
+		secp256k1.HashToScalar(m, d)
+		im.s[r] = secp256k1.HashToScalar(m, d)
 	case "s.cselect":
 		_ = im.s[r].CSelect(st.U, sa, sb)
 	case "s.random":
@@ -576,6 +631,17 @@ func c10Exec(im *c10Impl, st *c10Step) {
 
 func c10Run(c *mon.Ctx, csAny any) {
 	cs := csAny.(*c10Case)
+
+	if len(cs.Parallel) > 0 {
+		var cases []any
+		for _, h := range cs.Parallel {
+			cases = append(cases, h)
+		}
+
+		c.RunParallel(cases)
+
+		return
+	}
 
 	var (
 		m  c10Model
